@@ -1,0 +1,7 @@
+//go:build !verif
+
+package tglib
+
+import "github.com/ishidawataru/sctp"
+
+func verifConn() *sctp.SCTPConn { return nil }
